@@ -826,4 +826,3 @@ func exactTimeRule(c *Ctx, rule string, roots ...string) {
 	}
 	c.Floor(rule, n, 8)
 }
-
